@@ -1,6 +1,7 @@
 """C08 — HTTP/1.1 transport: the real Http1Codec on an in-memory stream cut into pieces, against the listen model and a head oracle."""
 from run_check import Case
 from vlib import line, untok
+from props.wirecases import gen_wire_cases, judge_wire
 
 TRUSTED_BASE = [
     "Coq 8.16.1 kernel (coqc; coqchk in the thorough tier)",
@@ -8,6 +9,7 @@ TRUSTED_BASE = [
     "hand-written model coq/Model/Http1.v of Http1Codec::listen (WaitingRequest / RequestInProgress buffers, read_buf bounded by the spare capacity); httparse is a parameter assumed stable under extension of its input (complete stays complete with the same index, error stays error)",
     "translator tools/gen_tables.py -> Generated/Http1Facts.v (partial head read in place before re-parsing, refill on empty buffer, end of stream on empty read, tail becomes the first upload chunk, size/header-count limits and their constants)",
     "extraction + driver.ml, cross-checked against vm_compute; harness door verif::http1 (real Http1Codec over tokio::io::duplex, paused clock, watchdog thread for spinning)",
+    "hand-written model coq/Model/Http1Wire.v of encode_headers / encode_response / encode_request and the independent reader coq/Spec/Rfc9112.v; the http crate's guarantees about its parts (no colon in a field name, no line break in a name or value, a three-digit status) are premises of response_head_is_well_formed; tied by the fact HTTP1_HEAD_WRITERS_AS_MODELLED and the doors verif::http1::{encode_response, encode_request}",
 ]
 ASSUMPTIONS = [
     "the transport hands over one written piece per read when pieces are separated by (virtual) time and fit the spare capacity",
@@ -18,7 +20,8 @@ RULE = ("request heads: CONNECT host:port, GET/POST with absolute URI, GET/POST 
         "no-space and multi-space after the colon); head lengths up to and around the 1024-byte limit (1000, 1023, 1024, 1025, 1100), 31/32/33 headers; payloads 0-300 bytes "
         "including CR LF CR LF; segmentations: whole, every 1-cut of a short head, random 2- and 3-cuts, byte-at-a-time, cuts at line ends, truncated streams; "
         "near-miss invalid heads (double space, missing version, HTTP/2.0, header without colon, control character in a name) carry the metamorphic oracle "
-        "(same outcome as whole delivery); every case carries the no-spin oracle; non-trivial = the head is cut at least once; distinct = distinct (stream, cuts)")
+        "(same outcome as whole delivery); every case carries the no-spin oracle; head writers: statuses incl. ones without a canonical phrase, 0-8 fields with empty values, inner and outer blanks, tabs, obs-text, repeated names, "
+        "requests in origin, absolute and authority form; non-trivial = the head is cut at least once; distinct = distinct (stream, cuts)")
 
 
 def gen_head(rng, kind=None):
@@ -165,6 +168,8 @@ def gen_cases(rng, ctx):
         add(b + b"zz", [len(b) + 2], "near-miss:whole", None, nontrivial=False, modelled=False)
         for style in ("1cut", "2cut", "bytes"):
             add(b + b"zz", cuts_for(rng, len(b), style), "near-miss:" + style, None, modelled=False)
+    # the head writers through the door: encode_response (what the client is answered with) and encode_request
+    cases += gen_wire_cases(rng, 120 if thorough else 40)
     return cases
 
 
@@ -182,6 +187,8 @@ def parse_headers(tok):
 
 
 def judge(case, impl, model, spec, ctx):
+    if case.meta and case.meta.get("wire"):
+        return judge_wire(case, impl, model, spec)
     if impl == "999":
         return [("violation", "the HTTP/1.1 codec panicked")]
     t = impl.split()
